@@ -123,12 +123,44 @@ CHECKS.update({"C02": c02})
 
 
 def c18(tier, seed):
+    import c18native, engine_g, hostrun, replay
+
+    def post(cases, stats):
+        """native part: real output == direct ICU4X with the declared options, in two evaluation orders"""
+        findings = []
+        cldr = hostrun.Cldr()
+        limit = 3 if tier == "quick" else 40
+        done = 0
+        total = 0
+        for c in cases:
+            if done >= limit or c.expect != "ok":
+                continue
+            h = stats.host_results.get(c.dir)
+            if not h or h.get("status") != "ok":
+                continue
+            try:
+                n, bad = c18native.run_project(c, h, cldr)
+            except replay.ReplayError as e:
+                stats.inconclusive.append((c.tag, "native formatter comparison failed to build/run: %s" % str(e)[-400:]))
+                continue
+            if n:
+                done += 1
+                total += n
+            for b in bad[:5]:
+                findings.append(engine_g.Finding("C18", "native_validation_differs", c, key=b["key"], detail=dict(b, key=b["key"], ns=None,
+                                note="real td_string! output vs direct uncached ICU4X call with the declared options, evaluation order %s" % b["order"]),
+                                role=c.roles.get((None, tuple(b["key"]))) or c.roles.get("*")))
+        stats.side = {"native_formatter_requests": total, "projects": done, "orders": ["declaration order", "reverse order"]}
+        cldr.close()
+        return findings
+
     return gcheck.run_property(
         "C18", tier, seed, suites.c18_cases(tier, seed), "reference",
         functions_encoded=["generated calls format_<X>_to_view / _to_formatter of both back-ends (formatter, options, locale argument)"],
-        bounds="the six documented formatters x every documented option combination (quick: 60 sampled) x 4 whitespace/order variants of the source x unrecognised values/arguments; formatter inside ranges, plurals, components, through foreign keys. Outside: equality with ICU4X output, formatter cache and threads.",
+        bounds="the six documented formatters x every documented option combination (quick: 60 sampled) x 4 whitespace/order variants of the source x unrecognised values/arguments; formatter inside ranges, plurals, components, through foreign keys. Native side condition (not solver-decided): for 3 (thorough 40) projects the real td_string! output equals a direct uncached ICU4X call with the declared options, in declaration order and in reverse order within one process (formatter cache). Outside: threads; time_length full/long (ICU4X needs a time zone there).",
         extra_assumptions=["documented defaults: number auto; currency short/USD; date medium; time short; list unit/wide",
-                           "fmt_<X>(locale, value, options) is uninterpreted: ICU4X output itself is not checked"])
+                           "fmt_<X>(locale, value, options) is uninterpreted for the solver; the native side condition compares with ICU4X itself"],
+        post=post, validate=0)
 
 
 def _c08_extra(case, ns, path, hk, ref):
@@ -194,3 +226,11 @@ def c12(tier, seed):
 
 
 CHECKS.update({"C12": c12})
+
+
+def c11(tier, seed):
+    import c11 as m
+    return m.run(tier, seed)
+
+
+CHECKS.update({"C11": c11})
